@@ -24,6 +24,7 @@ RULE = (
     "tool offers default streams, via in-process stream objects with a .buffer (real OS pipes in the thorough tier). "
     "Non-trivial: a non-default option is used or a stream variant is compared; distinct by sha1 of (spec, variant)"
 )
+RULE += " Also: standard streams named explicitly as '-', a named output file that exists already and is longer than the image, real pipes with a slow producer (second half of the input written only after the decoder drained the first), payloads of exactly 2^k bytes."
 ASSUMPTIONS = [
     "a width that is not a multiple of the pixels per byte has no defined last column in the file format; for such widths only "
     "header-vs-sample-count consistency is judged, not pixel content",
